@@ -168,10 +168,28 @@ class LocRecorder:
             return out
 
         _bi._Interval._loc = _loc
+        # the dyadic _split recurses below _loc: sample the frame depth at every node creation too
+        self._orig_split = getattr(_bi._Interval, "_split_exact", None)
+        if self._orig_split is not None:
+            orig_split = self._orig_split
+
+            def _split_exact(self_, midway):
+                d = 0
+                f = sys._getframe()
+                while f is not None:
+                    d += 1
+                    f = f.f_back
+                if d > rec.max_depth:
+                    rec.max_depth = d
+                return orig_split(self_, midway)
+
+            _bi._Interval._split_exact = _split_exact
         return self
 
     def __exit__(self, *a):
         _bi._Interval._loc = self._orig
+        if self._orig_split is not None:
+            _bi._Interval._split_exact = self._orig_split
 
     def reset(self):
         self.calls = []
